@@ -611,34 +611,67 @@ func checkChannelDelete(r *Run, p *Prog, la *LockAnalysis) {
 			r.Undecide("C02.R4: %s not found", name)
 			continue
 		}
-		renames := p.CallsDeep(top, func(o types.Object, c *ast.CallExpr) bool { return isFSRename(o, c) })
-		removes := p.CallsDeep(top, func(o types.Object, c *ast.CallExpr) bool { return isFSRemove(o, c) })
+		// top itself plus the package-local helpers it calls directly (a loop body extracted
+		// into a method keeps the same obligations, now inside the helper)
+		scopeFns := []*FuncNode{top}
+		helperSites := map[*FuncNode][]*ast.CallExpr{}
+		for _, cs := range p.CallsDeep(top, func(o types.Object, _ *ast.CallExpr) bool {
+			f, ok := o.(*types.Func)
+			if !ok {
+				return false
+			}
+			h, ok := p.ByObj[f.Origin()]
+			return ok && h.Pkg == top.Pkg && h != remove && h != top && h.Body != nil
+		}) {
+			h := p.ByObj[CalleeFunc(cs.Fn, cs.Call)]
+			touches := len(p.CallsDeep(h, func(o types.Object, c *ast.CallExpr) bool {
+				return isFSRename(o, c) || isFSRemove(o, c) || IsFunc(o, remove)
+			})) > 0
+			if !touches {
+				continue
+			}
+			if _, seen := helperSites[h]; !seen {
+				scopeFns = append(scopeFns, h)
+			}
+			helperSites[h] = append(helperSites[h], cs.Call)
+		}
+		var renames, removes []CallSite
+		for _, sf := range scopeFns {
+			renames = append(renames, p.CallsDeep(sf, func(o types.Object, c *ast.CallExpr) bool { return isFSRename(o, c) })...)
+			removes = append(removes, p.CallsDeep(sf, func(o types.Object, c *ast.CallExpr) bool { return isFSRemove(o, c) })...)
+		}
 		if len(renames) == 0 || len(removes) == 0 {
 			r.Ob("C02.R4.delete", name+" renames then removes", p.Position(top.Pos()), false, fmt.Sprintf("renames=%d removes=%d", len(renames), len(removes)))
 			continue
 		}
 		// every channel that left the map also leaves the file system: after a successful
 		// removeChannel the iteration (or the function) does not end without the rename
-		for i, rc := range CallsIn(top, calleeIs(remove)) {
-			c := p.CFG(top)
-			rp, ok := c.Locate(rc)
-			if !ok {
-				continue
-			}
-			errObj := errVarOfCall(top, rc)
-			var blocked map[edge]bool
-			if errObj != nil {
-				// only the nil edge of the call's error continues
-				blocked = c.EdgesEstablishing(func(atom ast.Expr, val bool) bool {
-					o, trueMeansNil, ok := nilCompare(top, atom)
-					return ok && o == errObj && val != trueMeansNil
+		nFollow := 0
+		for _, sf := range scopeFns {
+			for _, rc := range CallsIn(sf, calleeIs(remove)) {
+				nFollow++
+				i := nFollow - 1
+				top := sf
+				c := p.CFG(top)
+				rp, ok := c.Locate(rc)
+				if !ok {
+					continue
+				}
+				errObj := errVarOfCall(top, rc)
+				var blocked map[edge]bool
+				if errObj != nil {
+					// only the nil edge of the call's error continues
+					blocked = c.EdgesEstablishing(func(atom ast.Expr, val bool) bool {
+						o, trueMeansNil, ok := nilCompare(top, atom)
+						return ok && o == errObj && val != trueMeansNil
+					})
+				}
+				pth := c.leavesWithout(rp, enclosingLoop(top, rc), blocked, func(n ast.Node) bool {
+					return nodeHasCall(top, n, func(o types.Object, cc *ast.CallExpr) bool { return isFSRename(o, cc) })
 				})
+				r.ObPath("C02.R4.delete", fmt.Sprintf("%s: removeChannel #%d is followed by the directory rename", name, i+1), p.Position(rc.Pos()), pth == nil,
+					"a channel removed from the maps whose directory keeps its numeric name is rebuilt from that directory by the next Open", pth)
 			}
-			pth := c.leavesWithout(rp, enclosingLoop(top, rc), blocked, func(n ast.Node) bool {
-				return nodeHasCall(top, n, func(o types.Object, cc *ast.CallExpr) bool { return isFSRename(o, cc) })
-			})
-			r.ObPath("C02.R4.delete", fmt.Sprintf("%s: removeChannel #%d is followed by the directory rename", name, i+1), p.Position(rc.Pos()), pth == nil,
-				"a channel removed from the maps whose directory keeps its numeric name is rebuilt from that directory by the next Open", pth)
 		}
 		newNames := map[types.Object]bool{}
 		for i, rn := range renames {
@@ -651,7 +684,18 @@ func checkChannelDelete(r *Run, p *Prog, la *LockAnalysis) {
 				path = q.PathTo(rp)
 			}
 			r.ObPath("C02.R4.delete", fmt.Sprintf("%s rename #%d follows removeChannel", name, i+1), p.Position(rn.Call.Pos()), !vis[rp], "the directory must leave its name only after the channel left the map (and its handles were closed)", path)
-			r.Ob("C02.R4.delete", fmt.Sprintf("%s rename #%d runs under DB.mu (W)", name, i+1), p.Position(rn.Call.Pos()), la.HeldAt(rn.Call, "cesium.DB.mu", ModeW), "a concurrent create of the same key must not see the old directory")
+			underLock := la.HeldAt(rn.Call, "cesium.DB.mu", ModeW)
+			if !underLock {
+				if sites, isHelper := helperSites[rn.Fn.Top()]; isHelper && len(sites) > 0 {
+					underLock = true
+					for _, hc := range sites {
+						if !la.HeldAt(hc, "cesium.DB.mu", ModeW) {
+							underLock = false
+						}
+					}
+				}
+			}
+			r.Ob("C02.R4.delete", fmt.Sprintf("%s rename #%d runs under DB.mu (W)", name, i+1), p.Position(rn.Call.Pos()), underLock, "a concurrent create of the same key must not see the old directory")
 			// the new name is old + infix + ...; infix is a constant that Atoi cannot parse
 			dst := objOf(rn.Fn, rn.Call.Args[1])
 			src := objOf(rn.Fn, rn.Call.Args[0])
@@ -735,6 +779,58 @@ func removesRenamed(p *Prog, top *FuncNode, rm CallSite, newNames map[types.Obje
 					}
 				}
 			}
+		}
+		return true
+	})
+	// appends made by a package-local helper that receives &slice:
+	// "*param = append(*param, <rename target>)"
+	ast.Inspect(top.Body, func(x ast.Node) bool {
+		call, isCall := x.(*ast.CallExpr)
+		if !isCall {
+			return true
+		}
+		for i, a := range call.Args {
+			u, isAddr := ast.Unparen(a).(*ast.UnaryExpr)
+			if !isAddr || u.Op != token.AND || objOf(top, u.X) != slice {
+				continue
+			}
+			f := CalleeFunc(top, call)
+			if f == nil {
+				ok = false
+				continue
+			}
+			h, known := p.ByObj[f]
+			if !known || h.Body == nil {
+				ok = false
+				continue
+			}
+			po := paramObj(h, i)
+			inspectNoLit(h.Body, func(y ast.Node) bool {
+				as, isAs := y.(*ast.AssignStmt)
+				if !isAs || len(as.Lhs) != 1 || len(as.Rhs) != 1 {
+					return true
+				}
+				st, isStar := ast.Unparen(as.Lhs[0]).(*ast.StarExpr)
+				if !isStar || objOf(h, st.X) != po {
+					return true
+				}
+				ac, isAppend := ast.Unparen(as.Rhs[0]).(*ast.CallExpr)
+				if !isAppend {
+					ok = false
+					return true
+				}
+				if bi, isB := Callee(h, ac).(*types.Builtin); isB && bi.Name() == "append" {
+					for _, el := range ac.Args[1:] {
+						n++
+						if eo := objOf(h, el); eo == nil || !newNames[eo] {
+							ok = false
+						}
+					}
+				} else {
+					ok = false
+				}
+				return true
+			})
 		}
 		return true
 	})
